@@ -1014,6 +1014,8 @@ type tcase struct {
 	Cfg config   `json:"cfg"`
 	Mut mutation `json:"mut"`
 	Env env      `json:"env"`
+	// part W (witness.go)
+	Witness *witCase `json:"witness,omitempty"`
 }
 
 type world struct {
@@ -1063,7 +1065,7 @@ func (w *world) check(b *built, m mutation, envs []env) {
 	cls := b.mutClass(m)
 	for _, e := range envs {
 		r.Eval(1)
-		tc := tcase{b.cfg, m, e}
+		tc := tcase{Cfg: b.cfg, Mut: m, Env: e}
 		mr := model(b, mreq, extra, e, m)
 		err, pan := runImpl(req, e)
 		if pan != nil {
@@ -1270,7 +1272,13 @@ func main() {
 	if r.Replay != "" {
 		var tc tcase
 		r.LoadReplay(&tc)
-		if tc.Cfg.Layers > 0 {
+		if tc.Witness != nil {
+			accts := map[string]witAccount{}
+			for _, a := range witnessAccounts() {
+				accts[a.name] = a
+			}
+			w.witnessCase(accts, *tc.Witness)
+		} else if tc.Cfg.Layers > 0 {
 			w.check(w.built(tc.Cfg), tc.Mut, []env{tc.Env})
 		} else {
 			peerauthCases(r, w)
@@ -1330,6 +1338,7 @@ func main() {
 	enumx.Parallel(len(cfgs), func(i int) { w.built(cfgs[i]) })
 	selfChecks(r, w)
 	peerauthCases(r, w)
+	w.witnessPart(r.Thorough()) // small, runs first
 
 	// ---- jobs: (configuration, chunk of mutations) ----
 	type job struct {
@@ -1451,7 +1460,8 @@ func main() {
 	r.Set("pristine_configurations", len(cfgs))
 	r.Set("mutations_enumerated", total)
 	r.Set("exemption_spec", specExemption)
-	r.Rule("every mutation class (one flip per leaf of body, meta and every signature (thorough: per byte), one per 8 wire bytes, every dropped/emptied/re-signed slot, layer drop, permutation, swap, substitution, re-signing) x EVERY entry point x EVERY peer context x outer TTL 1 and 2; the remaining 7 bits of every byte under one decided environment per configuration (quick) / five (thorough); " +
+	r.Rule("W (N3 witness alphabet): 12 verification scripts (standard accounts with chosen key tail bytes, short custom scripts) x 6 invocation prefixes x every truncated/malformed last push instruction (PUSHDATA1/2/4 with missing length bytes, every declared length 0..48 (thorough 0..255) with no / one / all-but-one operand bytes, PUSHINT8..256 and PUSHA with every short operand), judged by the reference witness semantics; " +
+		"every mutation class (one flip per leaf of body, meta and every signature (thorough: per byte), one per 8 wire bytes, every dropped/emptied/re-signed slot, layer drop, permutation, swap, substitution, re-signing) x EVERY entry point x EVERY peer context x outer TTL 1 and 2; the remaining 7 bits of every byte under one decided environment per configuration (quick) / five (thorough); " +
 		"every pristine configuration (layers 1..3 x API regime x scheme assignment x TTL) x every enumerated mutation (each bit of each populated leaf, " +
 		"each unset field set, slot drop/empty/re-sign, scheme/key/sign menus, all slot pair swaps, layer drops, all layer permutations, attacker re-signing, " +
 		"each bit of the wire form) x entry point/peer context; non-trivial = a non-identity mutation whose reference verdict is decided (must reject / must accept), distinct by (configuration, mutation, environment)")
